@@ -481,9 +481,12 @@ fn src_pin_check_family(cur: &mut Cursor, p: &mut RefPos) {
             p.b[ray[j] as usize] = Some((them, slider));
         }
     }
-    // checkers
-    let n = cur.below(3);
+    // checkers: none to two, or (one case in twelve) as many as fit - line pieces on every free ray, knights on the knight squares
+    let n = if cur.chance(21) { 16 } else { cur.below(3) };
     for _ in 0..n {
+        if p.count(them) >= 15 {
+            break;
+        }
         let pc = cur.pick(&[Pc::N, Pc::P, Pc::R, Pc::B, Pc::Q]);
         let cands: Vec<Sq> = (0..64u8)
             .filter(|&s| {
@@ -514,9 +517,36 @@ fn src_pin_check_family(cur: &mut Cursor, p: &mut RefPos) {
 
 fn src_material_family(cur: &mut Cursor, p: &mut RefPos) {
     place_kings(cur, p);
-    let mode = cur.below(6);
+    let mode = cur.below(7);
     match mode {
         0 => {}
+        6 => {
+            // kings and many minor pieces only (up to 15 a side), all of one kind or mixed, mostly on squares of one colour:
+            // material rules and whatever counts or indexes by the number of knights / bishops at their far end
+            let kind = cur.below(3);
+            let n = 6 + cur.below(25);
+            let light = cur.bool();
+            let one_colour = !cur.chance(70);
+            let mut counts = [1usize; 2];
+            for _ in 0..n {
+                let mut c = if cur.bool() { Col::B } else { Col::W };
+                if counts[c as usize] >= 16 {
+                    c = c.inv();
+                }
+                if counts[c as usize] >= 16 {
+                    break;
+                }
+                let pc = match kind {
+                    0 => Pc::N,
+                    1 => Pc::B,
+                    _ => cur.pick(&[Pc::N, Pc::B]),
+                };
+                if let Some(s) = free_sq(cur, p, |s| !one_colour || is_light(s) == light) {
+                    p.b[s as usize] = Some((c, pc));
+                    counts[c as usize] += 1;
+                }
+            }
+        }
         1 => {
             let c = if cur.bool() { Col::B } else { Col::W };
             let pc = cur.pick(&[Pc::N, Pc::B, Pc::R, Pc::Q, Pc::P]);
